@@ -26,6 +26,18 @@ Proof.
 Qed.
 Print Assumptions C02_history_never_writes_through.
 
+(* ... and when the KIND of the source entry changes between runs -- a link becomes a regular file or a real directory, or back:
+   a symlink left in the destination by the earlier run is replaced, never written (or descended) through
+   (`fix: a file or directory is never created through a symlink that sits in its place`; before it, replacing an absolute link
+   in the source by a regular file made the next run overwrite the link's referent -- a source file -- recorded as fixed) *)
+Theorem C02_kind_changes_never_write_through : forall m hist d, snd (resync_any true m hist d) = false.
+Proof. exact resync_any_never_writes_through. Qed.
+Print Assumptions C02_kind_changes_never_write_through.
+
+Theorem C02_pinned_kind_change_refuted :
+  resync_any false LPreserve [SALink (mk_slink 1 (RFile 9)); SAFile 5] DAbsent = (DLink 1, true).
+Proof. reflexivity. Qed.
+
 (* dry-run and a refused run leave even the destination untouched (C08 / C07); --verify-only has no mutating step (C15) *)
 Theorem C02_dry_run_and_refusal_touch_nothing : forall refuse ds c now U keep src dst,
   (c_dry_run c = true -> r_fs (run refuse ds c now U keep src dst) = dst) /\
